@@ -73,3 +73,36 @@ void harness_free(void)
 	VASSERT(vm_live == 0, "C18 free: every block is returned to the configured allocator");
 	VWITNESS("free end");
 }
+
+/* C06 units on the real containers: the shadow copy holds exactly the other caches' records, and the
+ * swap exchanges both roots inside one write section of each table
+ */
+void harness_copy_swap(void)
+{
+	vm_install();
+	mk_table(&OLD, NULL);
+	pfx_table_init(&NEW, NULL);
+	tl_snapshot(&OLD, &SO0);
+	VASSUME(tl_sinv(&SO0, TE));
+	struct rtr_socket *s = (struct rtr_socket *)tl_nd_socket("src");
+	struct pfx_record w = tl_nd_record(ND_BOOL("w.otherfam") ? OTHV : FAMV);
+	unsigned int in_old = tl_scount(&SO0, &w);
+	int rc = pfx_table_copy_except_socket(&OLD, &NEW, s);
+
+	VASSERT(rc == PFX_SUCCESS, "copy_except_socket: succeeds");
+	tl_snapshot(&NEW, &SN0);
+	VASSERT(tl_scount(&SN0, &w) == (w.socket == s ? 0 : in_old), "C06 copy: the shadow table holds exactly the other caches' records");
+	VASSERT(tl_sinv(&SN0, TE), "C06 copy: the shadow table is a valid table");
+	tl_snapshot(&OLD, &SN1);
+	VASSERT(tl_scount(&SN1, &w) == in_old && tl_stotal(&SN1) == tl_stotal(&SO0), "C06 copy: the live table is not modified");
+
+	struct trie_node *o4 = OLD.ipv4, *o6 = OLD.ipv6, *n4 = NEW.ipv4, *n6 = NEW.ipv6;
+	unsigned int wo = vl_wr_sections[vl_slot(&OLD.lock)], wn = vl_wr_sections[vl_slot(&NEW.lock)];
+
+	pfx_table_swap(&OLD, &NEW);
+	VASSERT(OLD.ipv4 == n4 && OLD.ipv6 == n6 && NEW.ipv4 == o4 && NEW.ipv6 == o6, "C06 swap: both roots of both tables are exchanged");
+	VASSERT(vl_wr_sections[vl_slot(&OLD.lock)] == wo + 1 && vl_wr_sections[vl_slot(&NEW.lock)] == wn + 1,
+		"C06 swap: one write section on each table covers the exchange");
+	VASSERT(!vl_held(&OLD.lock) && !vl_held(&NEW.lock), "swap: locks released");
+	VWITNESS("copy_swap end");
+}
